@@ -1,13 +1,13 @@
 package sim
 
 import (
-	"time"
 	"encoding/json"
 	"fmt"
 	"os"
 	"runtime"
 	"strconv"
 	"testing"
+	"time"
 )
 
 // TestWorker is the entry point of a worker process; the driver passes its
